@@ -21,6 +21,10 @@ def run(ctx, L, tier):
     G.f4_tables(ctx, L)
     ordering(ctx, L)
     patch_actions(ctx, L)
+    from . import c20
+    c20.shared_state(ctx, L)        # no state that survives from one compiled file / call to the next (module, class, closure, default argument)
+    from . import c14
+    c14.evaluator_state(ctx, L)      # isar sizes go through the model-time evaluator: no state between evaluations
     return sorted(set(o.rule for o in L.obligations))
 
 
